@@ -92,6 +92,9 @@ func main() {
 			// recorded in the evidence, but it is not a verdict on the analysed tree.
 			fmt.Fprintf(os.Stderr, "SELF-TEST: %d mutant(s) not detected: see evidence\n", res.SelfTest.Missed)
 		}
+		if res.SelfTest != nil && len(res.SelfTest.BenignAlarms) > 0 {
+			fmt.Fprintf(os.Stderr, "SELF-TEST: %d behaviour-preserving edit(s) raised an alarm: see evidence\n", len(res.SelfTest.BenignAlarms))
+		}
 	}
 	if *rule == "" && os.Getenv("VERIF_REPO") == "" {
 		if err := res.WriteEvidence(); err != nil {
@@ -113,7 +116,7 @@ func main() {
 		fmt.Println(l)
 	}
 	if res.SelfTest != nil {
-		fmt.Printf("self-test: mutants run=%d detected=%d missed=%d skipped=%d\n", res.SelfTest.Run, res.SelfTest.Detected, res.SelfTest.Missed, res.SelfTest.Skipped)
+		fmt.Printf("self-test: mutants run=%d detected=%d missed=%d skipped=%d; benign edits run=%d silent=%d\n", res.SelfTest.Run, res.SelfTest.Detected, res.SelfTest.Missed, res.SelfTest.Skipped, res.SelfTest.BenignRun, res.SelfTest.BenignSilent)
 	}
 	os.Exit(res.Exit)
 }
